@@ -411,13 +411,14 @@ def errorAnswer (ep : EntryPoint) (cfg : Cfg) (e : Err) : Response :=
   | .envoy => cfg.deny e
   | _ => cfg.httpError e
 
-theorem answer_none (ep : EntryPoint) (cfg : Cfg) (up : Nat) :
-    answer ep cfg up none = errorAnswer ep cfg (.ofKind .noRule) := by
+theorem answer_none (ep : EntryPoint) (cfg : Cfg) (view : ReqView) (up : Nat) :
+    answer ep cfg view up none = errorAnswer ep cfg (.ofKind .noRule) := by
   cases ep <;> rfl
 
 /-- a completed pipeline: the positive answer of the entry point (the proxy needs an upstream to forward to) -/
-theorem answer_completed (ep : EntryPoint) (cfg : Cfg) (up : Nat) (r : Rule) (h : completedB r = true) :
-    answer ep cfg up (some r) =
+theorem answer_completed (ep : EntryPoint) (cfg : Cfg) (view : ReqView) (up : Nat) (r : Rule)
+    (h : completedB r = true) :
+    answer ep cfg view up (some r) =
       match ep with
       | .decision => .http cfg.acceptedCode false
       | .proxy => if r.hasBackend then .http up true else errorAnswer .proxy cfg (.ofKind .configuration)
@@ -425,32 +426,63 @@ theorem answer_completed (ep : EntryPoint) (cfg : Cfg) (up : Nat) (r : Rule) (h 
   obtain ⟨c', h1, p1⟩ := execute_completed r {} h
   have p1' : c'.pipelineErr = none := p1
   cases ep
-  · simp only [answer, serve, serveHTTP, finalizeHTTP, execute, h1, p1']; rfl
-  · simp only [answer, serve, serveHTTP, finalizeHTTP, execute, h1, p1']
+  · simp only [answer, serve, serveHTTP, finalizeHTTP, Cfg.writeError, execute, h1, p1']; rfl
+  · simp only [answer, serve, serveHTTP, finalizeHTTP, Cfg.writeError, execute, h1, p1']
     cases r.hasBackend <;> rfl
   · simp only [answer, serve, serveEnvoy, finalizeEnvoy, execute, h1, p1']
 
 set_option linter.unusedSimpArgs false in
 /-- a pipeline that did not complete: the entry point answers with the translation of an error (one that carries
 no redirect or the redirect of one of the rule's own redirect handlers), or — Envoy, on a panic — the RPC fails -/
-theorem answer_failed (ep : EntryPoint) (cfg : Cfg) (up : Nat) (r : Rule) (h : completedB r = false) :
-    (∃ e, Recordable r.errorHandlers e ∧ answer ep cfg up (some r) = errorAnswer ep cfg e) ∨
-    (ep = .envoy ∧ answer ep cfg up (some r) = .rpcError 13) := by
+theorem answer_failed (ep : EntryPoint) (cfg : Cfg) (view : ReqView) (up : Nat) (r : Rule)
+    (h : completedB r = false) :
+    (∃ e, Recordable r.errorHandlers e ∧ answer ep cfg view up (some r) = errorAnswer ep cfg e) ∨
+    (ep = .envoy ∧ answer ep cfg view up (some r) = .rpcError 13) := by
   rcases execute_not_completed r {} h with ⟨v, c', h1⟩ | ⟨x, c', h1, hx, p1⟩ | ⟨pe, c', h1, p1, hr⟩
   · cases ep
-    · exact Or.inl ⟨recovered v, Or.inl rfl, by simp only [answer, serve, serveHTTP, finalizeHTTP, execute, h1]; rfl⟩
-    · exact Or.inl ⟨recovered v, Or.inl rfl, by simp only [answer, serve, serveHTTP, finalizeHTTP, execute, h1]; rfl⟩
-    · exact Or.inr ⟨rfl, by simp only [answer, serve, serveEnvoy, finalizeEnvoy, execute, h1]⟩
+    · exact Or.inl ⟨recovered v, Or.inl rfl, by simp only [answer, serve, serveHTTP, finalizeHTTP, Cfg.writeError, execute, h1]; rfl⟩
+    · exact Or.inl ⟨recovered v, Or.inl rfl, by simp only [answer, serve, serveHTTP, finalizeHTTP, Cfg.writeError, execute, h1]; rfl⟩
+    · exact Or.inr ⟨rfl, by simp only [answer, serve, serveEnvoy, finalizeEnvoy, Cfg.denyReply, execute, h1]⟩
   · refine Or.inl ⟨x, Or.inl hx, ?_⟩
     cases ep
-    · simp only [answer, serve, serveHTTP, finalizeHTTP, execute, h1]; rfl
-    · simp only [answer, serve, serveHTTP, finalizeHTTP, execute, h1]; rfl
-    · simp only [answer, serve, serveEnvoy, finalizeEnvoy, execute, h1]; rfl
+    · simp only [answer, serve, serveHTTP, finalizeHTTP, Cfg.writeError, execute, h1]; rfl
+    · simp only [answer, serve, serveHTTP, finalizeHTTP, Cfg.writeError, execute, h1]; rfl
+    · simp only [answer, serve, serveEnvoy, finalizeEnvoy, Cfg.denyReply, execute, h1]; rfl
   · refine Or.inl ⟨pe, hr, ?_⟩
     cases ep
-    · simp only [answer, serve, serveHTTP, finalizeHTTP, execute, h1, p1]; rfl
-    · simp only [answer, serve, serveHTTP, finalizeHTTP, execute, h1, p1]; rfl
-    · simp only [answer, serve, serveEnvoy, finalizeEnvoy, execute, h1, p1]; rfl
+    · simp only [answer, serve, serveHTTP, finalizeHTTP, Cfg.writeError, execute, h1, p1]; rfl
+    · simp only [answer, serve, serveHTTP, finalizeHTTP, Cfg.writeError, execute, h1, p1]; rfl
+    · simp only [answer, serve, serveEnvoy, finalizeEnvoy, Cfg.denyReply, execute, h1, p1]; rfl
+
+/-! ## verbosity and the `Accept` header do not reach the answer -/
+
+/-- setting `respond.verbose` leaves every status of the configuration alone -/
+theorem httpStatus_verbose (cfg : Cfg) (v : Bool) (cl : Class) :
+    ({ cfg with verbose := v } : Cfg).httpStatus cl = cfg.httpStatus cl := by
+  cases cl <;> rfl
+
+theorem httpError_verbose (cfg : Cfg) (v : Bool) (e : Err) :
+    ({ cfg with verbose := v } : Cfg).httpError e = cfg.httpError e := by
+  simp only [Cfg.httpError, httpStatus_verbose]
+
+theorem deny_verbose (cfg : Cfg) (v : Bool) (e : Err) : ({ cfg with verbose := v } : Cfg).deny e = cfg.deny e := by
+  unfold Cfg.deny
+  cases classify e <;> simp only [httpStatus_verbose]
+
+theorem answer_verbose (ep : EntryPoint) (cfg : Cfg) (v : Bool) (view view' : ReqView) (up : Nat)
+    (found : Option Rule) :
+    answer ep { cfg with verbose := v } view' up found = answer ep cfg view up found := by
+  cases ep
+  all_goals
+    simp only [answer, serve, serveHTTP, serveEnvoy]
+    cases execute found {} with
+    | panic pv c => simp only [Cfg.writeError, httpError_verbose]
+    | done out c =>
+      obtain ⟨backend, err⟩ := out
+      obtain ⟨pe, tr⟩ := c
+      cases err <;> cases pe <;> cases backend <;>
+        simp only [finalizeHTTP, finalizeEnvoy, Cfg.writeError, Cfg.denyReply, httpError_verbose, deny_verbose] <;>
+        rfl
 
 /-! ## error answers are never positive -/
 
